@@ -63,8 +63,11 @@ fn fixed_cases() -> Vec<Case> {
         v.push(Case::ServerPayload(p));
     }
     for l in STR_LENS {
-        v.push(Case::AmfString(l));
-        v.push(Case::AmfName(l));
+        for _ in 0..4 {
+            // repeated: the character width used to build the string is drawn per case
+            v.push(Case::AmfString(l));
+            v.push(Case::AmfName(l));
+        }
         for f in STR_FIELDS {
             v.push(Case::StringCfg(f, l));
         }
@@ -335,7 +338,17 @@ fn run(case: &Case, rng: &mut Rng, out: &mut Out) {
             judge(*len <= 16_777_215, true, r, out, &what);
         }
         Case::AmfString(len) | Case::AmfName(len) => {
-            let s = "s".repeat(*len);
+            // `len` is a length in BYTES (what the AMF0 length field counts); half of the runs
+            // build it from multi-byte characters, so byte count and character count differ
+            let s = {
+                let unit = *rng.pick(&["s", "é", "中", "😀"]);
+                let mut s = unit.repeat(*len / unit.len());
+                while s.len() < *len {
+                    s.push('s');
+                }
+                s
+            };
+            assert_eq!(s.len(), *len);
             let v = if matches!(case, Case::AmfString(_)) {
                 vec![crate::refs::amf::V::Str(s)]
             } else {
@@ -373,7 +386,14 @@ fn run(case: &Case, rng: &mut Rng, out: &mut Out) {
         Case::StringCfg(field, len) => {
             for mode in [Mode::PublishLive, Mode::Play] {
                 let mut sc = small_scenario(rng, mode);
-                let s = "v".repeat(*len);
+                let s = {
+                    let unit = *rng.pick(&["v", "é", "中"]);
+                    let mut s = unit.repeat(*len / unit.len());
+                    while s.len() < *len {
+                        s.push('v');
+                    }
+                    s
+                };
                 match *field {
                     "fms_version" => sc.server_cfg.fms_version = s,
                     "flash_version" => sc.client_cfg.flash_version = s,
@@ -397,7 +417,7 @@ impl Check for C19 {
     }
     fn plan(&self, tier: Tier) -> Plan {
         let fixed = fixed_cases().len() as u64;
-        let mut p = Plan::new(fixed + tier.pick(400, 10_000), tier.pick(40.0, 420.0));
+        let mut p = Plan::new(fixed + tier.pick(4_000, 400_000), tier.pick(35.0, 360.0));
         p.mandatory = fixed;
         p.cpu_budget_s = 30.0;
         p.mem_ceiling = 3 << 30;
